@@ -159,6 +159,13 @@ class Emitter7(Emitter):
             n, _ = self.expr(args[0], 'N')
             v, _ = self.expr(args[1], 'S')
             return f'(List.replicate {n} {v})', 'V'
+        if f[0] == 'mem' and f[2] in ('maxCoeff', 'minCoeff') and not args and not self.componentwise:
+            # Eigen redux with scalar_max_op / scalar_min_op = std::max / std::min, left fold
+            v, t = self.expr(f[1])
+            if t != 'V':
+                raise TranslationError(f'.{f[2]}() on non-vector')
+            self.nat_lits.add(0)
+            return f'(redux {"emax" if f[2] == "maxCoeff" else "emin"} (0 : α) {v})', 'S'
         if f[0] == 'id' and len(args) == 1 and a[3] is None:
             # Eigen coefficient access `v(k)`
             try:
